@@ -214,7 +214,7 @@ def fine_exhaustive(deep: bool, rng=None) -> Iterable[Dict[str, Any]]:
                     for cc in cs:
                         for d in dsw:
                             yield dict(base, sched="R" * a + "W" * b + "R" * cc + "W" * d)
-                else:
+                elif (a + b) % 2 == 0:
                     yield dict(base, sched="R" * a + "W" * b + "R" * rng.randint(1, 34) + "W" * rng.randint(0, 9))
 
 
@@ -462,7 +462,7 @@ def run(res: C.Result, deep: bool):
                 "quicklogger, plus seeded long partitions.  A handshake case is non-trivial when the writer wrote at "
                 "least once; distinct by (data sets, operations, schedule).  fine granularity (every access to a shared "
                 "object is a scheduling point): the directed programs x 11 schedule shapes; for the 5 small programs every "
-                "schedule R^a W^b R^c W^d with all a, all b and (thorough) a spread of c, d resp. (quick) c = 0 and one seeded (c, d); a sweep that makes each of the first "
+                "schedule R^a W^b R^c W^d with all a, all b and (thorough) a spread of c, d resp. (quick) c = 0 and, for every other (a, b), one seeded (c, d); a sweep that makes each of the first "
                 "26/40 file-system operations fail, over 7 programs x 4/6 schedule shapes; seeded random runs with burst "
                 "schedules and 0-2 injected failures."
                 % (6 if deep else 5, 6, len(SMALL_PROGRAMS), len(ex), nrand[0], nrand[1],
